@@ -208,6 +208,29 @@ CHECKS += [
          technique="symbolic execution of gradient transforms / adjoint differentiation on polynomial terms vs symbolic differentiation of the circuit result; z3 QF_NRA"),
 ]
 
+CHECKS += [
+    dict(property_id="C35", category="proof", engine="z3 over the rule's output",
+         text="Thin by construction: the rule generator runs concretely for 64 (frequency set, shifts, order) configurations (all subsets of {1..4} scaled by 1, 1/2, 3; "
+              "non-equidistant sets with default and user shifts; orders 1-2, thorough 3-4; two-parameter rules); z3 then proves that the returned coefficients/"
+              "shifts differentiate EVERY function with that spectrum (symbolic Fourier coefficients, by linearity one query per frequency / product basis function) at "
+              "EVERY point (symbolic circle points) up to 1e-7. The configuration space is enumerated; the universally quantified function and point are the solver's.",
+         note="Trusted base: z3; floats of the rule read as exact rationals; cos/sin(frequency*shift) evaluated in floating point. Configurations for which the generator warns about a near-singular system are listed unsupported (documented limitation).",
+         technique="z3 QF_NRA validity queries over symbolic trigonometric polynomials applied to the real generator's output"),
+    dict(property_id="C36", category="proof", engine="z3 over the coefficient tables",
+         text="For every (n <= 3, approx_order <= 4, strategy) accepted by the real finite_diff_coeffs (thorough: n <= 4, order <= 6) z3 proves that the returned "
+              "coefficients/shifts reproduce h^n p^(n)(x) for EVERY polynomial of degree n+approx_order-1 (one query per monomial, by linearity), every x in [-1,1] and "
+              "h in (0,1], up to 1e-9 - i.e. the stated truncation order.",
+         note="Trusted base: z3; floats read as exact rationals. Outside: the finite_diff transform's tape generation/post-processing, truncation constants for non-polynomial functions.",
+         technique="z3 polynomial validity queries (symbolic x, h) over the real coefficient tables"),
+    dict(property_id="C37", category="other", engine=E1,
+         text="8 circuits (2-term, 4-term, multi-parameter gates, shared wires) x 6 measurement lists go through the REAL param_shift_hessian (default and custom "
+              "diagonal/off-diagonal shifts); generated tapes are evaluated by the matrix-route oracle, the REAL post-processing assembles the Hessian, and z3 proves "
+              "H[i][j] (and its transpose) == the second derivative from the symbolic differentiator for ALL parameter values. Products of two 4-term rule "
+              "coefficients are floats: those entries are proved up to 1e-7, and two of them time out (reported inconclusive), hence category 'other'.",
+         note=PROOF_NOTE + " Outside: nested autodiff of QNodes, numeric generators, finite shots.",
+         technique="symbolic execution of the Hessian transform's tapes/post-processing on polynomial terms vs symbolic second derivatives; z3 QF_NRA"),
+]
+
 _NOT_BUILT = "claimed in DESIGN.md §4 but its solver-based check is not built yet in this tree"
 NOT_APPLICABLE_REASONS = {
     "C04": "equality/hash: Python hash() of concrete payloads and tolerance-based allclose relations; no exact relation a solver can decide",
